@@ -18,6 +18,7 @@ import Driver.OpsLayout
 import Driver.OpsTyper
 import Driver.OpsEqual
 import Driver.OpsCodec
+import Driver.OpsText
 open Lean Driver
 
 def dispatch (op : String) (j : Json) : R Json :=
@@ -42,6 +43,8 @@ def dispatch (op : String) (j : Json) : R Json :=
   | "itemsEqual" => opItemsEqual j
   | "jsonRoundTrip" => opJsonRoundTrip j
   | "gobRoundTrip" => opGobRoundTrip j
+  | "textWrite" => opTextWrite j
+  | "textRead" => opTextRead j
   | _ => .error s!"unknown op {op}"
 
 partial def loop (h : IO.FS.Stream) (out : IO.FS.Stream) : IO Unit := do
